@@ -224,10 +224,30 @@ def parse_pattern(text):
     return ('block', t.body)
 
 
+LAST_ROOT = [None]
+
+
 def find(root, patterns, binding=None, nodes_out=None):
     """All patterns must match somewhere under `root` with one consistent
     binding.  Returns (binding, missing): binding dict if all matched (missing
-    empty), else the best partial binding and the list of unmatched patterns."""
+    empty), else the best partial binding and the list of unmatched patterns.
+    When the tree as written does not match, its syntax normal form (sa/normalise.py: an append loop over a fresh list
+    is the list comprehension it spells out) is tried; LAST_ROOT[0] is the tree the returned nodes belong to."""
+    LAST_ROOT[0] = root
+    b, missing = _find_in(root, patterns, binding, nodes_out)
+    if b is None:
+        import copy
+        from .normalise import normalise
+        alt = copy.deepcopy(root)
+        if normalise(alt):
+            b2, missing2 = _find_in(alt, patterns, binding, nodes_out)
+            if b2 is not None:
+                LAST_ROOT[0] = alt
+                return b2, missing2
+    return b, missing
+
+
+def _find_in(root, patterns, binding=None, nodes_out=None):
     pats = [(p, parse_pattern(p)) for p in patterns]
     _DEFS.clear()
     _DEFS.update(EXTRA_DEFS)
